@@ -44,6 +44,15 @@ def check_roundtrip(case):
     else:
         x, y = [float(v) for v in case["x"]], [float(v) for v in case["y"]]
     x = [v + case.get("x_off", 0.0) for v in x]          # -2: an abscissa equal to 0.0 inside the grid
+    x = A.ximage(x, case.get("x_img"))                   # tiny spacings / a near-uniform grid
+    if case.get("scribble"):
+        # history: an earlier recreation of the same data whose returned arrays the caller then edited in place
+        xs0, ys0 = RC.cls("pconst")(np.array(x), np.array(y), n).rfa()
+        try:
+            xs0 *= 3600.0
+            ys0 += 100.0
+        except Exception:
+            pass
     ysc = case.get("y_scale", 1.0)                       # same shape on a large baseline / at a tiny magnitude
     if ysc != 1.0:
         y = [v + ysc for v in y] if ysc > 1 else [v * ysc for v in y]
@@ -185,7 +194,9 @@ def harnesses(tier, seed):
                         k += 1
                         judge(ctx, check_roundtrip, {"x": x, "y": list(y), "strategy": st, "n": n, "p": RC.pkey(p),
                                                      "rule": rule, "append": app, "x_off": (0.0, -2.0)[k % 2],
-                                                     "y_scale": (1.0, 1.0, 2.5e6, 1.0, 1e-9)[k % 5]}, calls=3, bulk=True,
+                                                     "y_scale": (1.0, 1.0, 2.5e6, 1.0, 1e-9)[k % 5],
+                                                     "x_img": (None, "tiny", None, "jitter")[(k // 2) % 4],
+                                                     "scribble": k % 7 == 3}, calls=3, bulk=True,
                               nontrivial=lambda s: s[-1])
         if len(g) == 4 and st == "expada" and si % 50 == 0:
             ctx.sample({"x": x, "y": list(y), "strategy": st, "n": ns})
